@@ -227,6 +227,9 @@ func S2() []*Grammar {
 		`S: "a" "b" | "a~b"`,
 		`S: A ; A: "a~b" "c" | "a" "b~c"`,
 		`S: A ; A: "a~b" | "a" "b" | "a" B ; B: "b"`,
+		`Rule: Column "not~null" semi | check Value "not" "null" semi ; Column: col ; Value: val`,
+		`Rule: Column "not~null" | check Value "not" "null" ; Column: col ; Value: col`,
+		`S: A "x~y" z | b A "x" "y" z | c B "x" "y~z" ; A: a ; B: a`,
 		"S: a | a",
 		"S: A | A ; A: a",
 		"S: a b | c | a b",
